@@ -23,7 +23,7 @@ import (
 
 func init() {
 	register(&Prop{ID: "C14", Run: runC14, MinNontrivial: 500,
-		Rule:        "cases = (flow: BuildAuthURL, BuildAuthURLFromDocument, BuildAuthURLRedirect signed/unsigned, BuildLogoutURLRedirect, AuthRedirect) x relay states (empty, spaces, + & = % # ? /, CR/LF, non-ASCII, astral, 4 KiB) x IdP URLs (plain, existing query parameters incl. escaped values, trailing ?, fragment, port, escaped path) x request documents from the builders with random configuration plus caller-made documents x key configurations and compatible signature algorithms; oracle splits the RAW query on & and = (no decoding) to obtain the exact octets, checks endpoint + pre-existing parameters, SAMLRequest -> unescape -> base64 -> raw inflate == doc.WriteToString(), RelayState presence/value, and verifies Signature with the expected public key and the hash named by SigAlg over SAMLRequest=..[&RelayState=..]&SigAlg=.. built from those octets; non-trivial = a URL was produced and parsed; distinct by parameter tuple; class reconfigured-in-flight: the signing key is replaced from inside a URL build (signer callback on the calling goroutine), the URL must be consistent with one configuration; IdP parameter names that contain / end in / case-vary the binding parameter names; relay states swept over every string literal of the library source; AuthRedirect given requests with binding-named parameters in query, form body, referer and cookies",
+		Rule:        "cases = (flow: BuildAuthURL, BuildAuthURLFromDocument, BuildAuthURLRedirect signed/unsigned, BuildLogoutURLRedirect, AuthRedirect) x relay states (empty, spaces, + & = % # ? /, CR/LF, non-ASCII, astral, 4 KiB) x IdP URLs (plain, existing query parameters incl. escaped values, trailing ?, fragment, port, escaped path, paths with escaped slashes / reserved characters / lower-case escapes, repeated parameters) x request documents from the builders with random configuration plus caller-made documents x key configurations and compatible signature algorithms; oracle splits the RAW query on & and = (no decoding) to obtain the exact octets, checks endpoint + pre-existing parameters, SAMLRequest -> unescape -> base64 -> raw inflate == doc.WriteToString(), RelayState presence/value, and verifies Signature with the expected public key and the hash named by SigAlg over SAMLRequest=..[&RelayState=..]&SigAlg=.. built from those octets; non-trivial = a URL was produced and parsed; distinct by parameter tuple; class reconfigured-in-flight: the signing key is replaced from inside a URL build (signer callback on the calling goroutine), the URL must be consistent with one configuration; IdP parameter names that contain / end in / case-vary the binding parameter names; relay states swept over every string literal of the library source; AuthRedirect given requests with binding-named parameters in query, form body, referer and cookies",
 		Assumptions: []string{"IdP URLs do not themselves contain SAMLRequest/RelayState/SigAlg/Signature parameters", "signature algorithms compatible with the key type"}})
 }
 
@@ -37,7 +37,12 @@ var c14IdPURLs = []c14url{{"plain", "https://idp.example.test/sso"}, {"query", "
 	{"http", "http://idp.example.test/sso?z=last&a=first"},
 	// the IdP's own parameters have names that contain, end in or sort before the binding's parameter names
 	{"suffix-named", "https://idp.example.test/sso?DefaultRelayState=home&LastSAMLRequest=x&PreferredSigAlg=rsa"}, {"prefix-named", "https://idp.example.test/sso?SAMLRequestId=7&RelayStateful=1&SigAlgs=a,b&Signatures=none"},
-	{"value-named", "https://idp.example.test/sso?next=SAMLRequest%3Dx%26RelayState%3Dy%26SigAlg%3Dz&A=SAMLRequest="}, {"case-named", "https://idp.example.test/sso?samlrequest=lower&relaystate=lower&sigalg=lower&signature=lower"}}
+	{"value-named", "https://idp.example.test/sso?next=SAMLRequest%3Dx%26RelayState%3Dy%26SigAlg%3Dz&A=SAMLRequest="}, {"case-named", "https://idp.example.test/sso?samlrequest=lower&relaystate=lower&sigalg=lower&signature=lower"},
+	// paths whose escapes are not the default encoding of the decoded path (an escaped slash is not a slash)
+	{"escaped-slash-path", "https://idp.example.test/realms/acme%2Fprod/protocol/saml/sso"}, {"escaped-reserved-path", "https://idp.example.test/%7Etenant/a%3Bb/c%2Cd%40e/sso?x=1"},
+	{"lowercase-escapes-path", "https://idp.example.test/a%2fb/%e2%82%ac/sso"},
+	// parameters the IdP URL carries more than once, and empty-named ones
+	{"repeated-keys", "https://idp.example.test/sso?org=acme&scope=openid&scope=profile&scope=openid"}, {"repeated-mixed", "https://idp.example.test/sso?a=1&b=2&a=3&a=&b&=v&=w"}}
 
 // rawParams splits a raw query without decoding.
 func rawParams(raw string) [][2]string {
